@@ -97,7 +97,23 @@ func loadFaulty(path string) (segment.Segment, *faultyReaderAt, *os.File, error)
 type c19Op struct {
 	name string
 	run  func(s segment.Segment) (result string, empty bool, err error)
+	// kept != "": the op works on an object kept across calls of one script run
+	// (doc-value reader, dictionary). Once such an object has returned an error
+	// its later answers are not compared (the API does not define an object's
+	// state after an error), but it must still neither panic nor block.
+	kept string
 }
+
+// c19State holds the objects kept across the calls of one script run.
+type c19State struct {
+	dvr     segment.DocumentValueReader
+	dicts   map[string]segment.Dictionary
+	tainted map[string]bool
+}
+
+var c19St *c19State // one script runs at a time per process
+
+func c19NewState() { c19St = &c19State{dicts: map[string]segment.Dictionary{}, tainted: map[string]bool{}} }
 
 func hashStr(s string) string {
 	h := sha256.Sum256([]byte(s))
@@ -113,7 +129,7 @@ func c19Script(r *rand.Rand, x *model.XSeg, others []segment.Segment) []c19Op {
 		fields = append([]string{fields[0]}, fields[1+r.Intn(len(fields)-2):][:2]...)
 	}
 	add := func(name string, f func(s segment.Segment) (string, bool, error)) {
-		ops = append(ops, c19Op{name, f})
+		ops = append(ops, c19Op{name: name, run: f})
 	}
 	for _, f := range fields {
 		f := f
@@ -242,6 +258,73 @@ func c19Script(r *rand.Rand, x *model.XSeg, others []segment.Segment) []c19Op {
 			return b.String(), k == 0, nil
 		})
 	}
+	// the same DocumentValueReader kept across several calls of the script
+	if n > 0 {
+		for k := 0; k < 4; k++ {
+			dn := r.Intn(n)
+			if n > 1100 {
+				dn = []int{2, 1030, 7, 1100 + r.Intn(n-1100)}[k]
+			}
+			ops = append(ops, c19Op{name: fmt.Sprintf("KeptDocValueReader(%d)", dn), kept: "dvr", run: func(s segment.Segment) (string, bool, error) {
+				st := c19St
+				if st.dvr == nil {
+					dvr, err := s.DocumentValueReader(fields)
+					if err != nil {
+						return "", false, err
+					}
+					st.dvr = dvr
+				}
+				var b strings.Builder
+				k := 0
+				err := st.dvr.VisitDocumentValues(uint64(dn), func(f string, t []byte) {
+					fmt.Fprintf(&b, "%q=%q ", f, t)
+					k++
+				})
+				return b.String(), k == 0, err
+			}})
+		}
+	}
+	// one Dictionary per field kept across calls
+	for _, f := range fields {
+		f := f
+		ts := x.Terms(f)
+		for k := 0; k < 2 && len(ts) > 0; k++ {
+			t := ts[r.Intn(len(ts))]
+			ops = append(ops, c19Op{name: fmt.Sprintf("KeptDictionary(%s).PostingsList(%q)", f, t), kept: "dict:" + f, run: func(s segment.Segment) (string, bool, error) {
+				st := c19St
+				d := st.dicts[f]
+				if d == nil {
+					var err error
+					d, err = s.Dictionary(f)
+					if err != nil {
+						return "", false, err
+					}
+					st.dicts[f] = d
+				}
+				pl, err := d.PostingsList([]byte(t), nil, nil)
+				if err != nil {
+					return "", false, err
+				}
+				it, err := pl.Iterator(true, true, false, nil)
+				if err != nil {
+					return "", false, err
+				}
+				var b strings.Builder
+				fmt.Fprintf(&b, "count=%d ", pl.Count())
+				for k := 0; k < 10; k++ {
+					p, err := it.Next()
+					if err != nil {
+						return "", false, err
+					}
+					if p == nil {
+						break
+					}
+					fmt.Fprintf(&b, "%d/%d ", p.Number(), p.Frequency())
+				}
+				return b.String(), pl.Count() == 0, nil
+			}})
+		}
+	}
 	// DocsMatchingTerms
 	var terms []segment.Term
 	for k := 0; k < 4; k++ {
@@ -304,6 +387,14 @@ func c19RunOp(s segment.Segment, op c19Op) c19Outcome {
 		o.panicS = msg + "\n" + stack
 	}
 	o.err = err != nil
+	if op.kept != "" && c19St != nil {
+		if c19St.tainted[op.kept] && !o.err && o.panicS == "" {
+			o.err = true // answers of an object that already returned an error are not compared
+		}
+		if err != nil {
+			c19St.tainted[op.kept] = true
+		}
+	}
 	o.mutexOK = ice.VerifSegmentMutexFree(s)
 	return o
 }
@@ -331,6 +422,7 @@ func c19Faulted(c *runner.Ctx, path string, ops []c19Op, healthy []c19Outcome, f
 	done := make(chan res, 1)
 	var trace []string
 	go func() {
+		c19NewState()
 		check := func(i int, op c19Op, o c19Outcome, phase string) bool {
 			faultSeen := atomic.LoadInt64(&fr.failed) > 0
 			where := fmt.Sprintf("%s; read fault %s starting at ReadAt #%d; op %d %s (%s)\ncalls so far: %s", desc, mode, from, i, op.name, phase, strings.Join(trace, " "))
@@ -369,6 +461,7 @@ func c19Faulted(c *runner.Ctx, path string, ops []c19Op, healthy []c19Outcome, f
 		}
 		// lift the fault: fresh lookups must be healthy or report an error, never panic / block / differ
 		fr.set(never, never)
+		// (kept objects stay in use; those that already returned an error are only checked for panics / blocking)
 		for i, op := range ops {
 			o := c19RunOp(s, op)
 			if !check(i, op, o, "after-fault-lifted") {
@@ -444,6 +537,7 @@ func c19Healthy(c *runner.Ctx, path string, ops []c19Op) (healthy []c19Outcome, 
 	}
 	defer f.Close()
 	loadReads = atomic.LoadInt64(&fr.n)
+	c19NewState()
 	for _, op := range ops {
 		o := c19RunOp(s, op)
 		if o.err || o.panicS != "" || !o.mutexOK {
@@ -546,6 +640,7 @@ func c19FileRun(c *runner.Ctx) {
 			}
 			desc := fmt.Sprintf("file-backed segment docs=%d fields=%q; %s the file after %d healthy calls", len(x.Docs), x.Fields, kind, k)
 			bad := false
+			c19NewState()
 			for i, op := range ops {
 				if i == k {
 					if kind == "close" {
@@ -634,6 +729,7 @@ func init() {
 		w := bufio.NewWriter(os.Stdout)
 		fmt.Fprintln(w, "LOADED")
 		w.Flush()
+		c19NewState()
 		for i, op := range ops {
 			o := c19RunOp(s, op)
 			st := "ok"
